@@ -197,9 +197,9 @@ func SkipRows(fn *ssa.Function) []string {
 					if f == "" {
 						f = "[]"
 					}
-					name = "store ." + f
+					name = "store ." + f + " = " + clip(argText(x.Val), 140)
 				case *ssa.MapUpdate:
-					name = "map update"
+					name = "map[" + clip(argText(x.Key), 60) + "] = " + clip(argText(x.Value), 100)
 				case *ssa.Defer:
 					name = "defer " + shortCallee(&x.Call)
 				case *ssa.Go:
@@ -348,7 +348,7 @@ var skipGroups = []skipGroup{
 	{"skips-model-files", []string{"C05"}, []string{"haproxy", "haproxy/types", "haproxy/template", "haproxy/socket"}, "the model containers, the dynamic updater and the writers of pkg/haproxy"},
 	{"skips-converter", []string{"C01"}, []string{"converters", "converters/ingress", "converters/utils", "converters/configmap", "converters/tracker"}, "the Ingress converter, its helpers and the tracker"},
 	{"skips-gateway", []string{"C10", "C16", "C03", "C01"}, []string{"converters/gateway"}, "the Gateway API converter"},
-	{"skips-annotations", []string{"C18", "C19", "C16", "C09", "C15", "C03"}, []string{"converters/ingress/annotations"}, "the annotation updater"},
+	{"skips-annotations", []string{"C18", "C19", "C16", "C09", "C15", "C03", "C11", "C02", "C07", "C01", "C17"}, []string{"converters/ingress/annotations"}, "the annotation updater"},
 	{"skips-acme", []string{"C17"}, []string{"acme"}, "the acme signer and client"},
 	{"skips-cache", []string{"C08", "C09", "C15", "C01", "C12", "C17", "C10", "C13"}, []string{"controller/services", "controller/legacy", "common/net/ssl"}, "the cache facades and the services of both runtimes"},
 	{"skips-events", []string{"C14"}, []string{"controller/reconciler"}, "the watchers and the reconciler"},
